@@ -455,6 +455,7 @@ class ExprMixin(ExecBase):
         return res
 
     def getitem(self, st, o, k):
+        o = self.deref_dictlike(st, o)
         ty = o.ty
         if isinstance(ty, Opt):
             if not self.spec:
@@ -733,6 +734,7 @@ class ExprMixin(ExecBase):
         raise Unsupported("ordering between %s and %s (line %s)" % (a.ty, b.ty, self.cur_line))
 
     def contains(self, st, coll, x):
+        coll = self.deref_dictlike(st, coll)
         ty = coll.ty
         if isinstance(ty, Opt):
             coll = T.opt_val(coll)
